@@ -53,3 +53,31 @@ Theorem C07_no_conflicting_accesses : forall (c0 c : conf) (i j : nat) (ti tj : 
   writer_tok ti = true -> (writer_tok tj || reader_tok tj)%bool = true -> False.
 Proof. exact pogreb_race_free. Qed.
 Print Assumptions C07_no_conflicting_accesses.
+
+(* ---- Linz.v: concurrent HISTORIES (call and return events of any number of threads, each operation
+   taking effect at one atomic action between its call and its return; operations may be left
+   pending) are LINEARIZABLE in the sense of Herlihy and Wing with respect to the plain map: there is
+   a sequence of the completed operations (plus pending ones that took effect) that (a) is a legal
+   sequential run of the specification returning exactly the observed results (Items up to order,
+   CompactionResult numbers not compared) and (b) respects real time: an operation that returned
+   before another one was called comes first. *)
+From Pogreb Require Import DBRun Linz.
+Theorem C07_histories_are_linearizable :
+  forall P (sp : @DB.st pindex) (sf : @DB.st flat) (es : list (event op' out)) c,
+  params_ok P -> st_rel sp sf -> Inv P sf -> MetaOK sf ->
+  exec (step_chain' P) no_guard no_bg sp es c ->
+  Forall op_valid' (map snd (act_ops es)) -> rooms' P sf (map snd (act_ops es)) ->
+  linearization step_spec' out_equiv' (abs (s_disk sf)) (hist es) (lin_of (step_chain' P) sp es) /\
+  hist_wf (hist es).
+Proof.
+  intros P sp sf es c HP Hs HI HM He Hv Hr.
+  destruct (C07_linearizable P sp sf es c HP Hs HI HM He Hv Hr) as (A & _ & B & _).
+  exact (conj A B).
+Qed.
+Print Assumptions C07_histories_are_linearizable.
+
+(* with compaction running as background micro-steps between the clients' actions *)
+Definition C07_linearizable_with_compaction_microsteps := C07_linearizable_microsteps.
+(* sensitivity: if Get's index lookup and log read were two instants, a history with a whole
+   compaction in between is NOT linearizable *)
+Definition C07_split_get_not_linearizable := non_atomic_not_linearizable.
